@@ -66,17 +66,12 @@ theorem C09_validation_conelp (opt : String → Option Val) (qs : Bool) (env : L
     (h : conelp_opts opt qs = .ok env) : Good env := by
   unfold conelp_opts at h
   opts_sym h
-  obtain ⟨hk, hm, ha, hr, hra, hf, href, rfl⟩ := h
+  -- the facts come in the order in which the source reads the options; they are used by type, not by position
+  obtain ⟨h1, h2, h3, h4, h5, h6, h7, rfl⟩ := h
+  have hq := good_refinement_default qs
+  have hn : ∀ v : Val, Val.isNone v = true → v = Val.none := by intro v; cases v <;> simp [Val.isNone]
   refine ⟨?_, ?_, ?_, ?_, ?_⟩ <;> simp only [lookup, List.find?, String.reduceBEq]
-  · exact hm
-  · exact hf
-  · exact ⟨ha, hr, hra.elim Or.inl (fun h => Or.inr h.2)⟩
-  · rcases href with h0 | ⟨h0, h1, h2⟩
-    · simp only [h0, ↓reduceIte]; exact good_refinement_default qs
-    · simp only [h0, Bool.false_eq_true, ↓reduceIte]; exact ⟨h1, h2⟩
-  · rcases hk with h0 | ⟨_, h1, h2⟩
-    · left; revert h0; cases dget opt "kktreg" Val.none <;> simp [Val.isNone]
-    · right; exact ⟨h1, h2⟩
+  all_goals first | assumption | grind
 
 
 theorem num_tys1 : ∀ t ∈ ["float", "int", "long"], t = "float" ∨ t = "int" ∨ t = "long" := by simp
@@ -100,15 +95,11 @@ theorem C09_validation_cpl (opt : String → Option Val) (qs : Bool) (env : List
     (h : cpl_opts opt qs = .ok env) : Good env := by
   unfold cpl_opts at h
   opts_sym h
-  obtain ⟨hk, hm, ha, hr, hra, hf, href, rfl⟩ := h
+  obtain ⟨h1, h2, h3, h4, h5, h6, h7, rfl⟩ := h
+  have hq := good_refinement_default qs
+  have hn : ∀ v : Val, Val.isNone v = true → v = Val.none := by intro v; cases v <;> simp [Val.isNone]
   refine ⟨?_, ?_, ?_, ?_, ?_⟩ <;> simp only [lookup, List.find?, String.reduceBEq]
-  · exact hm
-  · exact hf
-  · exact ⟨ha, hr, hra.elim Or.inl (fun h => Or.inr h.2)⟩
-  · exact href
-  · rcases hk with h0 | ⟨_, h1, h2⟩
-    · left; revert h0; cases dget opt "kktreg" Val.none <;> simp [Val.isNone]
-    · right; exact ⟨h1, h2⟩
+  all_goals first | assumption | grind
 
 theorem C09_errors_cpl (opt : String → Option Val) (qs : Bool) (x : String)
     (h : cpl_opts opt qs = .error x) : x = "ValueError" := by
@@ -126,24 +117,16 @@ theorem C09_validation_coneqp (opt : String → Option Val) (qs : Bool) (env : L
     (h : coneqp_opts opt qs = .ok env) : Good env := by
   unfold coneqp_opts at h
   cases hopt : opt "refinement" <;> simp only [hopt] at h <;> opts_sym h
-  · obtain ⟨hk, hm, ha, hr, hra, hf, rfl⟩ := h
+  · obtain ⟨h1, h2, h3, h4, h5, h6, rfl⟩ := h
+    have hq := good_refinement_default qs
+    have hn : ∀ v : Val, Val.isNone v = true → v = Val.none := by intro v; cases v <;> simp [Val.isNone]
     refine ⟨?_, ?_, ?_, ?_, ?_⟩ <;> simp only [lookup, List.find?, String.reduceBEq]
-    · exact hm
-    · exact hf
-    · exact ⟨ha, hr, hra.elim Or.inl (fun h => Or.inr h.2)⟩
-    · exact good_refinement_default qs
-    · rcases hk with h0 | ⟨_, h1, h2⟩
-      · left; revert h0; cases dget opt "kktreg" Val.none <;> simp [Val.isNone]
-      · right; exact ⟨h1, h2⟩
-  · obtain ⟨hk, hm, ha, hr, hra, hf, href, rfl⟩ := h
+    all_goals first | assumption | grind
+  · obtain ⟨h1, h2, h3, h4, h5, h6, h7, rfl⟩ := h
+    have hq := good_refinement_default qs
+    have hn : ∀ v : Val, Val.isNone v = true → v = Val.none := by intro v; cases v <;> simp [Val.isNone]
     refine ⟨?_, ?_, ?_, ?_, ?_⟩ <;> simp only [lookup, List.find?, String.reduceBEq]
-    · exact hm
-    · exact hf
-    · exact ⟨ha, hr, hra.elim Or.inl (fun h => Or.inr h.2)⟩
-    · exact href
-    · rcases hk with h0 | ⟨_, h1, h2⟩
-      · left; revert h0; cases dget opt "kktreg" Val.none <;> simp [Val.isNone]
-      · right; exact ⟨h1, h2⟩
+    all_goals first | assumption | grind
 
 theorem C09_errors_coneqp (opt : String → Option Val) (qs : Bool) (x : String)
     (h : coneqp_opts opt qs = .error x) : x = "ValueError" := by
